@@ -277,4 +277,20 @@ def runChain (s : LState) : List POp → LState
     | some s' => runChain s' ops
     | none => runChain s ops
 
+/-- which operations of a history the heap model accepts (`false` = rejected: precondition, null pointer, fuel) -/
+def accepted (p : PList) : List POp → List Bool
+  | [] => []
+  | op :: ops =>
+    match step p op with
+    | some p' => true :: accepted p' ops
+    | none => false :: accepted p ops
+
+/-- which operations of a history the chain model accepts -/
+def acceptedChain (s : LState) : List POp → List Bool
+  | [] => []
+  | op :: ops =>
+    match stepChain s op with
+    | some s' => true :: acceptedChain s' ops
+    | none => false :: acceptedChain s ops
+
 end Nstd.Seq.Ptr
